@@ -15,27 +15,27 @@ var sampAssume = "sampling, not enumeration: a clean batch is evidence, not proo
 
 var props = map[string]*PropCfg{
 	"C03": {ID: "C03", Level: "exploration", Variants: []Variant{vDef},
-		QuickRuns: 16000, ThoroughRuns: 3000000, QuickSecs: 45, ThoroughSecs: 900,
+		QuickRuns: 24000, ThoroughRuns: 3000000, QuickSecs: 45, ThoroughSecs: 900,
 		Rule:        "one run = one seeded world (1-3 segments: built / persisted+opened / merged; doc-value chunk size from {1,2,3,7,64,1024}) and a seeded history of VisitDocValues calls (ascending, descending, random, repeated, chunk-crossing; state nil / reused for the same field list / carried over from another segment / from a closed segment); non-trivial = at least one visit with a reused state landed in a different chunk than the previous one; distinct = distinct digests of the run's event log",
 		Assumptions: []string{relAssume, sampAssume, "terms do not contain byte 0xFF; GeoShape extra doc values are not generated"}},
 	"C04": {ID: "C04", Level: "exploration", Variants: []Variant{vDef, vVec},
-		QuickRuns: 12000, ThoroughRuns: 2000000, QuickSecs: 45, ThoroughSecs: 900,
+		QuickRuns: 20000, ThoroughRuns: 2000000, QuickSecs: 45, ThoroughSecs: 900,
 		Rule:        "one run = one seeded world and 1-4 seeded batches, each built, streamed with WriteTo, persisted, read back byte for byte, footer/CRC checked against the documented v16 layout, re-opened and compared with the in-memory segment over the complete read surface; non-trivial = at least one non-empty batch; distinct = distinct digests of the run's event log",
 		Assumptions: []string{relAssume, sampAssume, "vectors variant uses the stub engine"}},
 	"C05": {ID: "C05", Level: "exploration", Variants: []Variant{vDef},
-		QuickRuns: 12000, ThoroughRuns: 2000000, QuickSecs: 45, ThoroughSecs: 900,
+		QuickRuns: 18000, ThoroughRuns: 2000000, QuickSecs: 45, ThoroughSecs: 900,
 		Rule:        "one run = one seeded segment store driven through 3-12 build / persist+open / merge / change-chunk-mode operations (merge inputs: 1-4 segments of mixed provenance incl. earlier merge outputs, deletion bitmaps nil/empty/one/partial/all-but-one/all, aborted merges interleaved); every merge output is compared with its inputs remapped through the returned maps; non-trivial = at least one merge with survivors; distinct = distinct digests of the run's event log",
 		Assumptions: []string{relAssume, sampAssume}},
 	"C06": {ID: "C06", Level: "exploration", Variants: []Variant{vDef},
-		QuickRuns: 12000, ThoroughRuns: 2000000, QuickSecs: 45, ThoroughSecs: 900,
+		QuickRuns: 14000, ThoroughRuns: 2000000, QuickSecs: 45, ThoroughSecs: 900,
 		Rule:        "as C05, comparing dictionaries, postings (frequency, norm, locations with source-field names) and doc values of every merge output with its inputs remapped; non-trivial = at least one merge with survivors; distinct = distinct digests of the run's event log",
 		Assumptions: []string{relAssume, sampAssume, "a field with at least one token has analysed length >= 1 (norm 0 is the 'not single-hit' marker)"}},
 	"C07": {ID: "C07", Level: "exploration", Variants: []Variant{vDef},
-		QuickRuns: 20000, ThoroughRuns: 3000000, QuickSecs: 45, ThoroughSecs: 900,
+		QuickRuns: 26000, ThoroughRuns: 3000000, QuickSecs: 45, ThoroughSecs: 900,
 		Rule:        "one run = one seeded world (built / opened / merged segments, chunk modes incl. 1,2,3) and a seeded history of postings-list uses: (term, exclusion bitmap) x Next/Advance sequences x detail-flag combinations, the list and iterator objects passed back in as preallocation across terms, fields and segments, ReplaceActual mid-iteration; non-trivial = at least one sequence with an Advance that skipped hits and one reuse of a preallocated object; distinct = distinct digests of the run's event log",
 		Assumptions: []string{relAssume, sampAssume, "Advance targets are strictly beyond the last returned document, as the interface requires"}},
 	"C08": {ID: "C08", Level: "exploration", Variants: []Variant{vDef},
-		QuickRuns: 16000, ThoroughRuns: 3000000, QuickSecs: 45, ThoroughSecs: 900,
+		QuickRuns: 20000, ThoroughRuns: 3000000, QuickSecs: 45, ThoroughSecs: 900,
 		Rule:        "one run = one seeded world (built / opened / merged once / merged repeatedly) and a seeded list of dictionary iterations: automaton (nil, match-all, exact, prefix, regexp, levenshtein 1-2, never) x key range (bounds absent / equal to / between / below / above existing terms); counts compared with fresh postings lists; non-trivial = at least one iteration over a merged segment returning >= 2 terms; distinct = distinct digests of the run's event log",
 		Assumptions: []string{relAssume, sampAssume}},
 	"C10": {ID: "C10", Level: "exploration", Variants: []Variant{vDef, vVec, share(vRace, 1)},
@@ -43,11 +43,11 @@ var props = map[string]*PropCfg{
 		Rule:        "one run = 1-4 builder tasks, each building a seeded list of batches (large-then-small, many-fields-then-few, synonym/vector then plain, empty, rejected by the field validator, failing engine call) interleaved at every document/field accessor callback and pool hook, with pool flushes in between; every successful build is compared with the same batch built in a pristine builder; non-trivial = a build reused a pooled builder that an earlier (different) batch had used, or two builds interleaved; distinct = distinct digests of the run's event log",
 		Assumptions: []string{relAssume, sampAssume, "race variant: Go race detector under an invisible (raw-syscall) baton; sync.Pool drops 1/4 of Puts at random under -race, so pool contents are not replayable there"}},
 	"C11": {ID: "C11", Level: "exploration", Variants: []Variant{share(vDef, 3), share(vRace, 1)},
-		QuickRuns: 4000, ThoroughRuns: 600000, QuickSecs: 60, ThoroughSecs: 1200,
+		QuickRuns: 6000, ThoroughRuns: 600000, QuickSecs: 60, ThoroughSecs: 1200,
 		Rule:        "one run = 1-3 shared segments (memory / mmap / merged, with synonyms), a solo history prefix shaping the scratch pools, then 2-6 reader tasks with seeded op lists (term queries, dictionary iterations, stored-field visits that continue / stop at _id / stop later / nest, DocID, DocNumbers, doc-value visits, thesaurus lookups, a merge reading the shared segments) interleaved at every harness callback and zapx yield hook; each call's result is compared with its solo result on a twin instance, visitor bytes are re-checked after a yield inside the callback, pool ownership is monitored; non-trivial = at least two tasks interleaved inside calls; distinct = distinct digests of the run's event log",
 		Assumptions: []string{relAssume, sampAssume, "race variant: Go race detector under an invisible (raw-syscall) baton"}},
 	"C13": {ID: "C13", Level: "exploration", Variants: []Variant{vDef},
-		QuickRuns: 12000, ThoroughRuns: 2000000, QuickSecs: 45, ThoroughSecs: 900,
+		QuickRuns: 16000, ThoroughRuns: 2000000, QuickSecs: 45, ThoroughSecs: 900,
 		Rule:        "as C05 with synonym documents in every world; thesauri of every merge output compared with the inputs' (term, synonym, document) triples remapped; non-trivial = at least one merge with survivors whose inputs hold synonym definitions; distinct = distinct digests of the run's event log",
 		Assumptions: []string{relAssume, sampAssume}},
 	"C15": {ID: "C15", Level: "exploration", Variants: []Variant{vVec},
@@ -55,7 +55,7 @@ var props = map[string]*PropCfg{
 		Rule:        "as C05 in the vectors build with vector fields in every world; exhaustive search results of every merge output compared with the inputs' results remapped; non-trivial = at least one merge with survivors whose inputs hold vectors; distinct = distinct digests of the run's event log",
 		Assumptions: []string{relAssume, sampAssume, "stub vector engine (exact brute force); FAISS itself is not exercised"}},
 	"C16": {ID: "C16", Level: "exploration", Variants: []Variant{share(vVec, 3), share(vVecR, 1)},
-		QuickRuns: 8000, ThoroughRuns: 1200000, QuickSecs: 60, ThoroughSecs: 1200,
+		QuickRuns: 12000, ThoroughRuns: 1200000, QuickSecs: 60, ThoroughSecs: 1200,
 		Rule:        "one run = one segment with 1-2 vector fields and a seeded history of open(field, filtering, except) / search / filtered search / close-handle / expiry tick / segment close events, single task or 2-4 interleaved tasks; every search is compared with the same search on a fresh twin opened from the same bytes; engine-side accounting and a handle model decide index lifetime; non-trivial = a search ran on a cache entry created by an earlier call with a different exclusion bitmap, or after an eviction and reload, or two tasks interleaved; distinct = distinct digests of the run's event log",
 		Assumptions: []string{relAssume, sampAssume, "stub vector engine; expiry is an explicit event through the verif hook (one cleanup pass = one monitor tick), the 1 s ticker itself is parked"}},
 	"C17": {ID: "C17", Level: "fault_enumeration", Variants: []Variant{share(vDef, 3), share(vVec, 1)},
@@ -63,15 +63,15 @@ var props = map[string]*PropCfg{
 		Rule:        "one run = one seeded input (segment or merge scenario) and a set of write faults on it: WriteTo with a failing writer at byte N (error, short write with error, short write without error); Persist and Merge with RLIMIT_FSIZE=N (torn write + EFBIG), symlink to /dev/full (ENOSPC), symlink to /dev/null (fsync fails), directory at path, missing parent; offsets: 0, 1, flush-boundary +-1, footer first/middle/last byte, L-1, plus seeded ones (small inputs: every offset); non-trivial = at least one fault fired inside the operation; distinct = distinct digests of the run's event log",
 		Assumptions: []string{sampAssume, "faults are injected in the real kernel and in the io.Writer argument; no simulated disk"}},
 	"C18": {ID: "C18", Level: "fault_enumeration", Variants: []Variant{share(vDef, 3), share(vVec, 1)},
-		QuickRuns: 8000, ThoroughRuns: 1200000, QuickSecs: 60, ThoroughSecs: 1200,
+		QuickRuns: 12000, ThoroughRuns: 1200000, QuickSecs: 60, ThoroughSecs: 1200,
 		Rule:        "one run = one seeded merge scenario; a dry run counts the K write callbacks (and engine calls); then the channel is closed before the call, from callback k for a sample (thorough: all) of k in 1..K, after return, and by a concurrent closer task; non-trivial = the cancellation landed while the merge was in progress; distinct = distinct digests of the run's event log",
 		Assumptions: []string{sampAssume, "nothing observable happens between two consecutive write callbacks except isClosed polls, so callback instants cover every distinguishable cancellation instant of that input"}},
 	"C19": {ID: "C19", Level: "fault_enumeration", Variants: []Variant{vVec},
-		QuickRuns: 10000, ThoroughRuns: 1500000, QuickSecs: 60, ThoroughSecs: 1200,
+		QuickRuns: 14000, ThoroughRuns: 1500000, QuickSecs: 60, ThoroughSecs: 1200,
 		Rule:        "one run = one seeded build or merge scenario with vector fields; a dry run records the engine call sequence; then every (operation, n) of it (quick: a sample) is failed once; non-trivial = the injected failure fired; distinct = distinct digests of the run's event log",
 		Assumptions: []string{sampAssume, "stub vector engine with a fault plan; FAISS itself is not exercised"}},
 	"C20": {ID: "C20", Level: "exploration", Variants: []Variant{share(vDef, 3), share(vRace, 1)},
-		QuickRuns: 8000, ThoroughRuns: 1200000, QuickSecs: 45, ThoroughSecs: 900,
+		QuickRuns: 12000, ThoroughRuns: 1200000, QuickSecs: 45, ThoroughSecs: 900,
 		Rule:        "one run = one mmap-opened (or in-memory) segment and a balanced seeded history of AddRef / DecRef / Close, sequential with a read sweep between any two operations, or 2-5 holder tasks interleaved with the owner's Close and with readers; reference counter model, /proc/self/maps and /proc/self/fd inspected after the last release; non-trivial = at least 3 reference operations with reads in between; distinct = distinct digests of the run's event log",
 		Assumptions: []string{sampAssume, "race variant: Go race detector under an invisible (raw-syscall) baton"}},
 }
@@ -79,20 +79,20 @@ var props = map[string]*PropCfg{
 // reach probes that a healthy batch is expected to hit at least once
 var expectedProbes = map[string][]string{
 	"C03": {"probe.dv.chunk-reload-backwards", "probe.dv.chunk-reload-forwards", "probe.dv.state-across-segments", "probe.dv.state-from-closed-segment"},
-	"C04": {"probe.persist.over-earlier-shorter-attempt", "probe.persist.over-longer-file", "probe.dv.composite-only"},
+	"C04": {"probe.roundtrip.rechecked-after-later-builds", "probe.persist.over-earlier-shorter-attempt", "probe.persist.over-longer-file", "probe.dv.composite-only"},
 	"C05": {"probe.stored.bytecopy", "probe.stored.reencode", "probe.merge.nosurvivors", "probe.merge.chain>=2", "probe.merge.emptyinput", "fault.merge.cancelled"},
-	"C06": {"probe.postings.bytecopy", "probe.postings.reencode", "probe.1hit.remerged", "probe.merge.chain>=2"},
-	"C07": {"probe.post.target-beyond-32-bits", "probe.post.1hit-list", "probe.post.replaceactual", "probe.post.list>=3hits", "probe.post.list>=3chunks", "probe.prealloc.from-closed-segment"},
-	"C08": {"probe.dict.merged>=2terms", "probe.dict.multi-after-single", "probe.dict.two-iterators-of-one-dictionary"},
+	"C06": {"probe.dense.batch>=1024", "probe.postings.bytecopy", "probe.postings.reencode", "probe.1hit.remerged", "probe.merge.chain>=2"},
+	"C07": {"probe.dense.batch>=1024", "probe.post.target-beyond-32-bits", "probe.post.1hit-list", "probe.post.replaceactual", "probe.post.list>=3hits", "probe.post.list>=3chunks", "probe.prealloc.from-closed-segment"},
+	"C08": {"probe.dict.exhausted-iterator-asked-again", "probe.dict.merged>=2terms", "probe.dict.multi-after-single", "probe.dict.two-iterators-of-one-dictionary"},
 	"C10": {"probe.pool.builder-reused", "probe.pool.object-reused-across-tasks", "fault.build.rejected", "probe.build.size-compared", "probe.yield.zapx:new.afterGet", "probe.yield.zapx:new.beforePut"},
 	"C11": {"probe.pool.object-reused-across-tasks", "probe.yield.zapx:dict.beforeLock", "probe.yield.zapx:syncache.window", "probe.yield.visit.insideCallback", "probe.yield.merge.reportBytesWritten", "fault.poolflush"},
 	"C13": {"probe.merge.chain>=2", "probe.syn.empty-term", "probe.syn.empty-thesaurus"},
 	"C15": {"probe.merge.chain>=2", "probe.vec.boundary-batch"},
-	"C16": {"probe.vc.entry-shared-across-except-bitmaps", "probe.vc.eviction-then-reload", "fault.expiry.evictions", "probe.yield.zapx:veccache.window.create", "probe.yield.zapx:veccache.window.docvec"},
+	"C16": {"fault.engine.load-failed-in-open", "probe.vc.entry-shared-across-except-bitmaps", "probe.vc.eviction-then-reload", "fault.expiry.evictions", "probe.yield.zapx:veccache.window.create", "probe.yield.zapx:veccache.window.docvec"},
 	"C17": {"fault.rlimit", "fault.rlimit-transient", "fault.devfull", "fault.devnull", "fault.dir", "fault.noparent", "fault.writer.mode0", "fault.writer.mode1", "fault.strace.fsync", "fault.strace.close", "fault.strace.write", "probe.io.over-longer-file", "probe.io.over-shorter-file"},
 	"C18": {"probe.io.over-longer-file", "probe.cancel.midway-aborted", "fault.cancel.aborted", "fault.cancel.finished-normally", "fault.cancel.concurrent-aborted", "fault.cancel.concurrent-finished"},
-	"C19": {"probe.io.over-longer-file", "fault.engine.IndexFactory", "fault.engine.AddWithIDs", "fault.engine.WriteIndexIntoBuffer", "fault.engine.ReadIndexFromBuffer", "fault.engine.ReconstructBatch", "fault.engine.Train", "fault.engine.SetDirectMap"},
-	"C20": {"probe.ref.merge-of-held-segment", "probe.syn.unloadable-thesaurus-world", "probe.ref.failed-merge-of-held-segment", "probe.open.damaged-rejected", "probe.yield.zapx:seg.addRef", "probe.yield.zapx:seg.decRef"},
+	"C19": {"probe.vec.field>4096vectors", "probe.io.over-longer-file", "fault.engine.IndexFactory", "fault.engine.AddWithIDs", "fault.engine.WriteIndexIntoBuffer", "fault.engine.ReadIndexFromBuffer", "fault.engine.ReconstructBatch", "fault.engine.Train", "fault.engine.SetDirectMap"},
+	"C20": {"probe.ref.parallel-release-rounds", "probe.ref.merge-of-held-segment", "probe.syn.unloadable-thesaurus-world", "probe.ref.failed-merge-of-held-segment", "probe.open.damaged-rejected", "probe.yield.zapx:seg.addRef", "probe.yield.zapx:seg.decRef"},
 }
 
 // ---------------------------------------------------------------------------
